@@ -65,7 +65,17 @@ def interp(ctx, shape, pos, lkind='f', k=1, fills='default', issorted=None, dkin
         left = right = float('nan')
     if issorted:
         kw['issorted'] = True
-    arg = list(new) if newform == 'list' else ctx.nparray(new, kind=qkind)
+    if newform == 'list':
+        arg = list(new)
+    elif newform == 'tuple':
+        arg = tuple(new)
+    elif newform == 'axis-othername':
+        # an Axis object that is named like ANOTHER dimension of the array: axis= says where to interpolate
+        arg = ctx.da.Axis(ctx.nparray(new, kind=qkind), dims[(pos + 1) % nd])
+    elif newform == 'axis-samename':
+        arg = ctx.da.Axis(ctx.nparray(new, kind=qkind), dims[pos])
+    else:
+        arg = ctx.nparray(new, kind=qkind)
     if like:
         other = ctx.mk([dims[pos], 'other'], [new, [0]], [0.0] * k, lkinds=[qkind, 'i'], register=False)
         f = lambda: a.interp_like(other, **kw)
@@ -219,6 +229,12 @@ def templates():
     for shape, pos in (([3], 0), ([2, 3], 1)):
         add('under-position-%s' % 'x'.join(map(str, shape)), 'interp', cost=3, shape=shape, pos=pos, k=1, lkind='i', under={'indexing.by': 'position'})
     add('under-position-like', 'interp', cost=3, shape=[3], pos=0, k=1, lkind='i', like=True, under={'indexing.by': 'position'})
+    for nf in ('axis-othername', 'axis-samename', 'tuple'):
+        add('newform-%s' % nf, 'interp', cost=2, shape=[2, 3], pos=1, k=2, newform=nf)
+        add('newform-%s-pos' % nf, 'interp', cost=2, shape=[3, 2], pos=0, k=1, newform=nf, axis_by='pos')
+    # interp_like onto a grid with as many points as the array has (the grids may coincide, nearly coincide or differ)
+    add('like-same-size-1d', 'interp', cost=4, shape=[2], pos=0, k=2, like=True, fills='sym')
+    add('like-same-size-2d', 'interp', cost=6, shape=[2, 2], pos=1, k=2, like=True)
     add('like-1d', 'interp', cost=1, shape=[3], pos=0, k=2, like=True)
     add('like-2d', 'interp', cost=2, shape=[2, 3], pos=1, k=2, like=True, fills='sym')
     return ts
